@@ -38,8 +38,10 @@ static int vp_replay_failures;
 #define VP_ENTRY_FN harness
 #endif
 void VP_ENTRY_FN(void);
+#ifndef VP_NO_MAIN
 int main(void) { VP_ENTRY_FN(); fprintf(stderr, "VP_REPLAY_DONE failures=%d\n", vp_replay_failures);
                  return vp_replay_failures ? 1 : 0; }
+#endif
 #endif
 
 /* exact-extent object: its own allocation of exactly n bytes, so that any access outside it
@@ -54,6 +56,33 @@ static inline uint8_t *vp_obj(size_t n)
     if (!p) _exit(4);
 #endif
     return p;
+}
+/* the PDU / message object: a byte array, so the library may assume byte alignment only.
+ * In a C15 replay (native, -fsanitize=alignment) it starts VP_MISALIGN bytes past a 16-byte boundary */
+#if defined(VP_MISALIGN) && !defined(__CPROVER__)
+static inline uint8_t *vp_pdu(size_t n)
+{
+    uint8_t *q = (uint8_t *)aligned_alloc(16, ((n + 16 + VP_MISALIGN) + 15) / 16 * 16);
+    if (!q) _exit(4);
+    return q + VP_MISALIGN;
+}
+#define free(p) ((void)(p))
+#else
+#define vp_pdu vp_obj
+#endif
+static inline uint8_t *vp_pdu_from(const uint8_t *src, size_t n)
+{
+    uint8_t *p = vp_pdu(n);
+    for (size_t i = 0; i < n; i++) p[i] = src[i];
+    return p;
+}
+/* PDU of n bytes placed at byte offset k (0..7) inside its own object of n + 8 bytes */
+static inline uint8_t *vp_place(const uint8_t *src, size_t n, unsigned k)
+{
+    uint8_t *p = vp_pdu(n + 8);
+    for (size_t i = 0; i < n + 8; i++) p[i] = 0;
+    for (size_t i = 0; i < n; i++) p[k + i] = src[i];
+    return p + k;
 }
 static inline uint8_t *vp_obj_from(const uint8_t *src, size_t n)
 {
